@@ -111,7 +111,10 @@ def main(argv: list[str]) -> int:
                 bad += 1
     finally:
         shutil.rmtree(_scratch(), ignore_errors=True)
-    with open(os.path.join(driver.VERIF_ROOT, "seeded", "LAST_RESULTS.json"), "w") as f:
+    # the full table lives in LAST_RESULTS.json; a run on selected ids (or with other seeds / tier)
+    # goes to LAST_PARTIAL.json so that it cannot clobber the table
+    whole = len(ids) == len(all_ids) and seeds == [0] and tier == "quick"
+    with open(os.path.join(driver.VERIF_ROOT, "seeded", "LAST_RESULTS.json" if whole else "LAST_PARTIAL.json"), "w") as f:
         json.dump([{k: v for k, v in r.items() if k != "meta"} for r in results], f, indent=1)
     print(f"sensitivity: {sum(r['status'] == 'CAUGHT' for r in results)}/{len(results)} caught, "
           f"{bad} differ from expectation")
